@@ -176,6 +176,7 @@ def c04():
                   "heights < 2^32 (Mainnet/Testnet) / < 196602 (testing chains), all four chain types, every candidate version", est=30))
     obs.append(ob("c04::graph_weight_no_overflow", "qt", 4, "graph_weight total for edge_bits in [base,63], C31 phase-out",
                   "every height, all chain types", est=30))
+    obs.append(ob("c04::pow_primary_secondary_predicates", "qt", 4, "ProofOfWork::is_secondary <=> edge_bits == 29; is_primary <=> edge_bits != 29 and >= the chain's minimum", "every edge_bits byte, all chain types", est=20))
     obs.append(ob("c04::secondary_pow_ratio_schedule", "qt", 4, "secondary ratio <= 90, monotone, zero after two years", "every height", est=30))
     return {
         "obligations": obs,
@@ -287,6 +288,10 @@ def c01():
         ob("c01::kernel_sums_iff_equation_1_2_1", "qt", 5, "Committed::verify_kernel_sums == Ok  <=>  sum(outputs) - sum(inputs) + overage == sum(kernel excesses) + offset (both components)",
            "1 input / 2 outputs / 1 kernel; every commitment any model element; |overage| < 2^40; any offset", est=200, loops=L, replay="model"),
     ]
+    obs.append(ob("c01::block_coinbase_sum", "qt", 5, "Block::verify_coinbase == Ok <=> sum(coinbase outputs) - (REWARD + fees) == sum(coinbase kernels)",
+                  "1 input / 2 outputs / 2 kernels with symbolic coinbase flags, commitments and fee < 2^40", est=300, loops=L, replay="model", mem_est_gb=8))
+    obs.append(ob("c01::header_overage_arithmetic", "qt", 5, "BlockHeader::overage = -REWARD; total_overage = -(height [+1]) * REWARD; consensus::reward = REWARD + fees (saturating); REWARD = 60 grin",
+                  "height < 2^27 (the i64 product overflows near 1.5e8 blocks), any fee", est=30, loops=L))
     for (ni, no, nk, tiers) in [(1, 0, 1, "qt"), (0, 1, 1, "qt"), (1, 1, 2, "qt"), (2, 2, 2, "t")]:
         obs.append(ob("c01::body_validate_consults_oracles", tiers, 5, "TransactionBody::validate == Ok => every kernel signature and every range proof was handed to the verifier and is valid",
            "%d inputs / %d outputs / %d kernels; symbolic commitments, kernel variants, oracle bits" % (ni, no, nk),
@@ -369,6 +374,24 @@ def c19():
     }
 
 
+def c15():
+    obs = []
+    for ca, cb, nch, d, tiers in [(0, 0, 1, 0, "t"), (0, 1, 2, 0, "t"), (0, 1, 2, 1, "t"), (0, 0, 1, 1, "t"), (1, 0, 2, 0, "t"), (0, 2, 3, 0, "t"), (0, 2, 3, 1, "t"), (1, 1, 2, 1, "t")]:
+        obs.append(ob("c15::apply_equals_init", tiers, 8,
+                      "BitmapAccumulator::apply (rewind to the first affected chunk, pad, re-apply) yields the same MMR root as init from scratch over the resulting unspent set",
+                      "kept bit in chunk %d, changed bit in chunk %d (%s), %d chunks; offsets inside the 1024-bit chunks symbolic" % (ca, cb, "becomes unspent" if d == 0 else "becomes spent", nch),
+                      env={"VH_CA": ca, "VH_CB": cb, "VH_NCH": nch, "VH_DIR": d}, tag="_a%d_b%d_n%d_d%d" % (ca, cb, nch, d), est=400,
+                      loops={"memcmp": 140, "memcpy": 140, "to_bytes": 140, "any": 40, "from_elem": 40, "BitVec": 140, "Blocks": 40, "peak_map_height": 66, "peak_sizes_height": 66}, mem_est_gb=10))
+    return {
+        "obligations": obs,
+        "stubs": BASE_STUBS + ["E4a hash mixer", "E3 RandomState", "E6-lite croaring::Bitmap (rewind passes an empty bitmap)", "E9 Instant::now / SystemTime::now -> fixed instant"],
+        "explanation": "Bounded proof over BitmapAccumulator::{new, init, apply, apply_from, rewind_prior, pad_left, append_chunk, root} and BitmapChunk on a VecBackend.",
+        "bounds": "two set bits (one kept, one changing), chunk placement concrete per query, offsets symbolic",
+        "outside": "Extension::apply_to_bitmap_accumulator's computation of the changed indices (needs a live Extension), rebuild on open, merged-root validation in TxHashSetRoots, more than two bits",
+        "assumptions": [],
+    }
+
+
 def c16():
     obs = []
     HL = {"memcmp": 40, "compress": 66}
@@ -400,6 +423,7 @@ PLAN = {
     "C12": c12(),
     "C13": c13(),
     "C14": c14(),
+    "C15": c15(),
     "C16": c16(),
     "C19": c19(),
     "C07": c07(),
